@@ -11,10 +11,11 @@ import (
 
 func init() {
 	register("C15", func(r *Report) {
-		r.Explanation = "Decides data isolation for all interleavings (no shared mutable state implies no interference through memory): (R1) in the accept loop every variable captured by the per-connection goroutine is allocated inside the loop body or never written inside the loop, the handler is constructed inside the loop, and the session function dials its own broker connection into a local; (R2) everything a handler shares with other sessions - the handler configuration struct, the predefined-topics maps, configured byte slices (also when aliased by a packet field) - is never written: no field store outside construction, no map update/delete/Add/Merge, no element store or in-place append on a slice loaded from a configuration or CONNECT-packet field; (R3) no package-level variable of the repository is assigned outside init. Not decided: interference through resource exhaustion or through the broker."
+		r.Explanation = "Decides data isolation for all interleavings (no shared mutable state implies no interference through memory): (R1) in the accept loop every variable captured by the per-connection goroutine is allocated inside the loop body or never written inside the loop, the handler is constructed inside the loop, and the session function dials its own broker connection into a local; (R2) everything a handler shares with other sessions - the handler configuration struct, the predefined-topics maps, configured byte slices (also when aliased by a packet field) - is never written: no field store outside construction, no map update/delete/Add/Merge, no element store or in-place append on a slice loaded from a configuration or CONNECT-packet field, and no write (store, atomic update, also inside a called repository method and after copying the reference into a per-session struct) through a pointer or interface held in a field of the shared configuration; (R3) no package-level variable of the repository is assigned outside init; (R4) a failed DTLS handshake of one peer (it runs inside Accept) never ends the accept loop: every return on an Accept error is guarded by 'not a *dtls.HandshakeError'. Not decided: interference through resource exhaustion or through the broker."
 		r.floor("R1", 3)
 		r.floor("R2", 3)
 		r.floor("R3", 1)
+		r.floor("R4", 1)
 	}, checkC15)
 	register("C23", func(r *Report) {
 		r.Explanation = "Decides form, direction, length-field and size-bound clauses for all histories: (R1) no packet struct is built by a composite literal outside package packets1, and inside it every literal initialises the embedded Header (constructors and the decoder); (R2) the type-flow set of every argument of the gateway's MQTT-SN sender is within the types a gateway may send and the client library's within the types a client may send, and each such type has a case in the other side's dispatcher; (R3) length field = bytes written for every type and variant, header form thresholds (shared with C21-R3/R5); (R4) only the sender functions write to connections (one packet per datagram); (R5) every variable-length field of an outgoing packet that comes from outside the process passes a length comparison on its way to the sender. R5 is a known finding today (no bound anywhere: uint16(len) wraps above 65535 and datagrams above 8192 bytes are produced)."
@@ -121,6 +122,7 @@ func checkC15(c *Ctx, r *Report) {
 					}
 				}
 			})
+			c.checkAcceptErrors(r, f)
 			r.cond(ctorInLoop, "R1", fnKey(f)+":handler-per-connection", c.instrPos(i), "a fresh handler (own transaction store, ID sequence, maps) is constructed in every iteration", "no handler is constructed per accepted connection")
 		})
 	}
@@ -213,6 +215,7 @@ func checkC15(c *Ctx, r *Report) {
 		})
 	}
 	c.checkSharedMapAliases(r, "R2")
+	c.checkSharedPointers(r, "R2")
 	r.ok("R2", "shared-config-read-only", "-", fmt.Sprintf("%d stores to configuration structs examined (all at construction); no map update, Add/Merge, element store or in-place append on shared data in package gateway", nShared))
 	// which slices alias the configuration (for the record)
 	r.okTrivial("R2", "aliases", "-", "byte-slice fields considered shared: "+strings.Join(c.sharedSliceFields(), ", "))
@@ -1071,4 +1074,90 @@ func (c *Ctx) anySharedField(set map[string]bool, field string) bool {
 		}
 	}
 	return false
+}
+
+// checkAcceptErrors (C15-R4): a peer can make Accept fail - the DTLS server handshake runs inside Accept and every
+// handshake failure (bad certificate alert, no common cipher suite, garbage record, timeout) surfaces as
+// *dtls.HandshakeError. Such an error must never end the accept loop: the loop's return would stop the whole gateway,
+// i.e. one client's (mis)behaviour ends every other client's session. Every return of the accept-loop function that is
+// reachable with a non-nil Accept error must therefore be guarded by "the error is NOT a *dtls.HandshakeError"
+// (type assertion with comma-ok, or errors.As on a *dtls.HandshakeError target).
+func (c *Ctx) checkAcceptErrors(r *Report, f *ssa.Function) {
+	var accept *ssa.Call
+	allInstrs(f, func(i ssa.Instruction) {
+		if call, ok := i.(*ssa.Call); ok && call.Call.IsInvoke() && call.Call.Method.Name() == "Accept" && inCycle(i.Block()) {
+			accept = call
+		}
+	})
+	key := fnKey(f) + ":accept-error:handshake-failure-never-ends-the-loop"
+	if accept == nil {
+		r.undecided("R4", key, c.pos(f.Pos()), "no Accept call in the accept loop")
+		return
+	}
+	var errv ssa.Value
+	if accept.Referrers() != nil {
+		for _, u := range *accept.Referrers() {
+			if ex, ok := u.(*ssa.Extract); ok && ex.Index == 1 {
+				errv = ex
+			}
+		}
+	}
+	if errv == nil {
+		r.bad("R4", key, c.instrPos(accept), "the error of Accept is discarded")
+		return
+	}
+	isHandshakeType := func(t types.Type) bool {
+		return strings.HasSuffix(typeStr(t), "dtls.HandshakeError") || strings.HasSuffix(typeStr(t), "dtls/v2.HandshakeError")
+	}
+	notHandshake := func(gs []Guard) bool {
+		for _, g := range gs {
+			if g.Truth {
+				continue
+			}
+			switch x := g.Cond.(type) {
+			case *ssa.Extract:
+				if ta, ok := x.Tuple.(*ssa.TypeAssert); ok && ta.CommaOk && ta.X == errv && isHandshakeType(ta.AssertedType) {
+					return true
+				}
+			case *ssa.Call:
+				if calleeName(&x.Call) == "errors.As" && len(x.Call.Args) == 2 && x.Call.Args[0] == errv {
+					tgt := x.Call.Args[1]
+					if mi, ok := tgt.(*ssa.MakeInterface); ok {
+						tgt = mi.X
+					}
+					if pt, ok := tgt.Type().Underlying().(*types.Pointer); ok && isHandshakeType(pt.Elem()) {
+						return true
+					}
+				}
+			}
+		}
+		return false
+	}
+	n, bad := 0, ""
+	for _, b := range f.Blocks {
+		ret, ok := b.Instrs[len(b.Instrs)-1].(*ssa.Return)
+		if !ok {
+			continue
+		}
+		gs := guardsOf(b)
+		onErr := false
+		for _, g := range gs {
+			if x, y, op, ok := cmpGuard(g); ok && op == token.NEQ && ((x == errv && isNilConst(y)) || (y == errv && isNilConst(x))) {
+				onErr = true
+			}
+		}
+		if !onErr {
+			continue
+		}
+		n++
+		if !notHandshake(gs) {
+			bad = c.instrPos(ret)
+		}
+	}
+	if n == 0 {
+		r.ok("R4", key, c.instrPos(accept), "no Accept error ends the accept loop")
+		return
+	}
+	r.cond(bad == "", "R4", key, c.instrPos(accept), fmt.Sprintf("%d return(s) on an Accept error, each only for errors that are not DTLS handshake failures", n),
+		"the accept loop returns ("+bad+") on an Accept error that may be a *dtls.HandshakeError: the DTLS handshake runs inside Accept, so one peer whose handshake fails (rejected certificate, no common cipher suite, garbage) stops the gateway - no other peer address gets a session any more and the established sessions end with the process")
 }
